@@ -153,8 +153,8 @@ def run(ctx):
         fam = repo.cls(famq)
         try:
             comps, _ = c03._components(repo, fam, 2 if (famq, 2) in c03.REFERENCE else None)
-        except fold.NotLiteral:
-            continue
+        except fold.NotLiteral as ex:
+            raise AnalysisError(f'eigen-components of {cq} can no longer be extracted ({ex})')
         n = int(round(np.log2(comps[0][1].shape[0])))
         bad = None
         emitted = 0
